@@ -51,7 +51,8 @@ type Txn struct {
 	// actions while it ran ("" = none), as "<status> <body>": its content says
 	// which processor INSTANCE ran (config.go genBody)
 	Early    []string `json:"early_response_of_event"`
-	Result   string   `json:"result"` // none | answered | error
+	AllEarly []string `json:"early_responses"` // every early response among the actions, in order
+	Result   string   `json:"result"`          // none | answered | error
 	ErrText  string   `json:"error,omitempty"`
 	NActions int      `json:"actions"`
 }
@@ -111,7 +112,12 @@ func setupEnv() {
 
 // Load writes the configuration into a fresh directory under the harness cwd
 // and initialises a new engine from it.
-func Load(c *Config) (*streams.Stream, error) {
+func Load(c *Config) (st *streams.Stream, err error) {
+	defer func() { // a loader that panics has not accepted the configuration
+		if r := recover(); r != nil {
+			st, err = nil, fmt.Errorf("panic while loading: %v", r)
+		}
+	}()
 	setupEnv()
 	cwd, err := os.Getwd()
 	if err != nil {
@@ -138,11 +144,11 @@ func Load(c *Config) (*streams.Stream, error) {
 	environment.SetStreamsFlowsDirectory(filepath.Join(base, "flows"))
 	environment.SetQuotasDirectory(filepath.Join(base, "quotas"))
 	environment.SetPathParamsDirectory(filepath.Join(base, "pp"))
-	st, err := streams.NewStream()
+	st, err = streams.NewStream()
 	if err != nil {
 		return nil, err
 	}
-	if err := st.Initialize(); err != nil {
+	if err = st.Initialize(); err != nil {
 		return nil, err
 	}
 	return st, nil
@@ -185,6 +191,18 @@ func earlyPerEvent(n int, at []int, acts *stream_config.StreamActions) []string 
 	return out
 }
 
+func allEarly(acts *stream_config.StreamActions) []string {
+	out := []string{}
+	if acts.Request != nil {
+		for _, x := range acts.Request.Actions {
+			if a, ok := x.(*actions.EarlyResponseAction); ok {
+				out = append(out, fmt.Sprintf("%d %s", a.Status, a.Body))
+			}
+		}
+	}
+	return out
+}
+
 // Run executes one transaction the way routing/messages_handler.go does.
 func Run(st *streams.Stream, t *Txn) {
 	txnSeq++
@@ -209,9 +227,9 @@ func Run(st *streams.Stream, t *Txn) {
 	// again as a response; a response only as a response
 	t.SelReq = Selection{Start: []string{}, User: []string{}, End: []string{}}
 	if t.Dir == "req" {
-		t.SelReq = sel(st, api, publictypes.StreamTypeRequest)
+		t.SelReq = selSafe(st, api, publictypes.StreamTypeRequest)
 	}
-	t.SelRes = sel(st, api, publictypes.StreamTypeResponse)
+	t.SelRes = selSafe(st, api, publictypes.StreamTypeResponse)
 	// the hook fires after a processor ran and before its action is appended: the
 	// actions appended between two events belong to the first of them
 	var at []int
@@ -241,6 +259,7 @@ func Run(st *streams.Stream, t *Txn) {
 	}
 	t.Events = events
 	t.Early = earlyPerEvent(len(events), at, acts)
+	t.AllEarly = allEarly(acts)
 	t.Result = "none"
 	t.ErrText = ""
 	if err != nil {
